@@ -11,6 +11,12 @@ package c13
 //	toggle  InflationKeeper.Sudo().ToggleInflation(ctx, b, sender)      (sender: sudo root or a stranger)
 //	edit    InflationKeeper.Sudo().EditInflationParams(ctx, msg, sender)
 //	fund    stray unibi minted into the inflation module account
+//	chroot  sudo MsgServer.ChangeRoot(sender, new root): the strategic-reserve recipient changes in mid-history
+//
+// The sudo root is part of the case: an ordinary account ("a0" = the root of the test genesis, "a1", "a2") or a module
+// account of the application ("m:gov", "m:distribution", "m:fee_collector", …).  Everything runs on the keepers of the
+// real application (app wiring of the tree under test: its bank keeper with its blocked-recipient table); the table is
+// probed once per run (BankKeeper.BlockedAddr for every module account) and travels with every trace.
 //
 // Observables around each op: change of the unibi supply, of the fee collector balance, of the
 // community pool and of the sudo root balance; inflation module balance, CurrentPeriod and
@@ -19,6 +25,9 @@ package c13
 import (
 	"encoding/json"
 	"math/big"
+	"sort"
+	"strconv"
+	"strings"
 	"testing"
 	"time"
 
@@ -27,6 +36,7 @@ import (
 	storetypes "github.com/cosmos/cosmos-sdk/store/types"
 	sdk "github.com/cosmos/cosmos-sdk/types"
 	authtypes "github.com/cosmos/cosmos-sdk/x/auth/types"
+	distrtypes "github.com/cosmos/cosmos-sdk/x/distribution/types"
 
 	. "verifharness/hx"
 
@@ -36,6 +46,8 @@ import (
 	"github.com/NibiruChain/nibiru/v2/x/epochs"
 	epochstypes "github.com/NibiruChain/nibiru/v2/x/epochs/types"
 	inflationtypes "github.com/NibiruChain/nibiru/v2/x/inflation/types"
+	sudokeeper "github.com/NibiruChain/nibiru/v2/x/sudo/keeper"
+	sudotypes "github.com/NibiruChain/nibiru/v2/x/sudo/types"
 )
 
 const unibi = "unibi"
@@ -66,6 +78,8 @@ type c13Op struct {
 	Max     *uint64   `json:"max"`
 	// fund
 	Amt int64 `json:"amt,omitempty"`
+	// chroot (with auth): the new sudo root, "a<k>" or "m:<module account>"
+	Root string `json:"root,omitempty"`
 }
 
 type c13Input struct {
@@ -74,6 +88,7 @@ type c13Input struct {
 	Period  *uint64   `json:"period"`  // nil (together with skipped) = sequences never written
 	Skipped *uint64   `json:"skipped"` //
 	Module  int64     `json:"module"`  // stray unibi in the module account at the start
+	Root    string    `json:"root,omitempty"` // sudo root at the start ("" = "a0")
 	Ops     []c13Op   `json:"ops"`
 }
 
@@ -91,7 +106,10 @@ type c13Out struct {
 
 type c13Obs struct {
 	// probe, once per run: does AfterEpochEnd panic when the provision is positive but below one unibi?
-	ZeroMintPanics bool      `json:"zero_mint_panics"`
+	ZeroMintPanics bool `json:"zero_mint_panics"`
+	// probe, once per run: module accounts the application's bank keeper refuses as recipients
+	Blocked []string  `json:"blocked"`
+	Root    string    `json:"root"` // sudo root as read back from the sudo keeper before the first op
 	Params         c13Params `json:"params"` // as read back from the keeper before the first op
 	Period         uint64    `json:"period"`
 	Skip           uint64    `json:"skipped"`
@@ -137,10 +155,47 @@ func fromParams(p inflationtypes.Params) c13Params {
 type c13World struct {
 	app      *app.NibiruApp
 	ctx      sdk.Context
-	root     sdk.AccAddress
+	accts    []sdk.AccAddress // ordinary accounts a0 (root of the test genesis), a1, a2
 	stranger sdk.AccAddress
 	feeColl  sdk.AccAddress
+	distr    sdk.AccAddress
 	module   sdk.AccAddress
+	modNames []string // module accounts of the application, sorted
+	blocked  []string // those the bank keeper refuses as recipients
+}
+
+// rootAddr: the address behind a root id ("a<k>" | "m:<module account>")
+func (w *c13World) rootAddr(t *testing.T, id string) sdk.AccAddress {
+	if id == "" {
+		id = "a0"
+	}
+	if strings.HasPrefix(id, "m:") {
+		for _, n := range w.modNames {
+			if n == id[2:] {
+				return authtypes.NewModuleAddress(n)
+			}
+		}
+		t.Fatalf("unknown module account %q", id)
+	}
+	k, err := strconv.Atoi(strings.TrimPrefix(id, "a"))
+	if err != nil || k < 0 || k >= len(w.accts) {
+		t.Fatalf("bad root id %q", id)
+	}
+	return w.accts[k]
+}
+
+func (w *c13World) rootID(addr sdk.AccAddress) string {
+	for k, a := range w.accts {
+		if a.Equals(addr) {
+			return "a" + strconv.Itoa(k)
+		}
+	}
+	for _, n := range w.modNames {
+		if authtypes.NewModuleAddress(n).Equals(addr) {
+			return "m:" + n
+		}
+	}
+	return "?" + addr.String()
 }
 
 var world *c13World
@@ -148,25 +203,37 @@ var zeroMintPanics bool
 
 type snap struct{ supply, fee, pool, root, module sdkmath.Int }
 
-func (w *c13World) snap(ctx sdk.Context) snap {
+func (w *c13World) snap(ctx sdk.Context, root sdk.AccAddress) snap {
 	bk := w.app.BankKeeper
 	return snap{
 		supply: bk.GetSupply(ctx, unibi).Amount,
 		fee:    bk.GetBalance(ctx, w.feeColl, unibi).Amount,
 		pool:   w.app.DistrKeeper.GetFeePool(ctx).CommunityPool.AmountOf(unibi).TruncateInt(),
-		root:   bk.GetBalance(ctx, w.root, unibi).Amount,
+		root:   bk.GetBalance(ctx, root, unibi).Amount,
 		module: bk.GetBalance(ctx, w.module, unibi).Amount,
 	}
 }
 
-func runC13(t *testing.T, in c13Input) c13Obs {
+func ensureWorld() *c13World {
 	if world == nil {
 		a, ctx := testapp.NewNibiruTestAppAndContext()
 		world = &c13World{app: a, ctx: ctx,
-			root:     sdk.MustAccAddressFromBech32(testutil.ADDR_SUDO_ROOT),
+			accts: []sdk.AccAddress{sdk.MustAccAddressFromBech32(testutil.ADDR_SUDO_ROOT),
+				sdk.AccAddress([]byte("c13-ordinary-root-a1")), sdk.AccAddress([]byte("c13-ordinary-root-a2"))},
 			stranger: sdk.AccAddress([]byte("c13-stranger-address")),
 			feeColl:  a.AccountKeeper.GetModuleAddress(authtypes.FeeCollectorName),
+			distr:    a.AccountKeeper.GetModuleAddress(distrtypes.ModuleName),
 			module:   a.AccountKeeper.GetModuleAddress(inflationtypes.ModuleName),
+		}
+		for name := range a.AccountKeeper.GetModulePermissions() {
+			world.modNames = append(world.modNames, name)
+		}
+		sort.Strings(world.modNames)
+		world.blocked = []string{}
+		for _, n := range world.modNames {
+			if a.BankKeeper.BlockedAddr(authtypes.NewModuleAddress(n)) {
+				world.blocked = append(world.blocked, n)
+			}
 		}
 		pctx, _ := ctx.CacheContext()
 		a.InflationKeeper.Params.Set(pctx, toParams(c13Params{Enabled: true, Started: true, Factors: []string{"400000000000"},
@@ -175,7 +242,11 @@ func runC13(t *testing.T, in c13Input) c13Obs {
 		a.InflationKeeper.NumSkippedEpochs.Set(pctx, 0)
 		zeroMintPanics = Recover(func() { a.EpochsKeeper.AfterEpochEnd(pctx, epochstypes.DayEpochID, 1) }) != ""
 	}
-	w := world
+	return world
+}
+
+func runC13(t *testing.T, in c13Input) c13Obs {
+	w := ensureWorld()
 	ctx, _ := w.ctx.CacheContext()
 	ik := w.app.InflationKeeper
 	if in.Period == nil || in.Skipped == nil {
@@ -201,6 +272,18 @@ func runC13(t *testing.T, in c13Input) c13Obs {
 		ik.NumSkippedEpochs.Set(ctx, *in.Skipped)
 	}
 	ik.Params.Set(ctx, toParams(in.Params))
+	sudoSrv := sudokeeper.NewMsgServer(w.app.SudoKeeper)
+	cur := w.accts[0]
+	if want := w.rootAddr(t, in.Root); !want.Equals(cur) {
+		// the genesis root hands the sudo root over
+		if _, err := sudoSrv.ChangeRoot(sdk.WrapSDKContext(ctx), &sudotypes.MsgChangeRoot{Sender: cur.String(), NewRoot: want.String()}); err != nil {
+			t.Fatal(err)
+		}
+	}
+	cur, err := w.app.SudoKeeper.GetRootAddr(ctx)
+	if err != nil {
+		t.Fatal(err)
+	}
 	if in.Module > 0 {
 		if err := w.app.BankKeeper.MintCoins(ctx, inflationtypes.ModuleName, Unibi(in.Module)); err != nil {
 			t.Fatal(err)
@@ -225,10 +308,11 @@ func runC13(t *testing.T, in c13Input) c13Obs {
 			CurrentEpochStartTime: now, CurrentEpochStartHeight: height, EpochCountingStarted: true,
 		})
 	}
-	obs := c13Obs{ZeroMintPanics: zeroMintPanics, Params: fromParams(ik.GetParams(ctx)), Period: ik.CurrentPeriod.Peek(ctx),
-		Skip: ik.NumSkippedEpochs.Peek(ctx), Module: w.snap(ctx).module.BigInt(), Ops: []c13Out{}}
+	obs := c13Obs{ZeroMintPanics: zeroMintPanics, Blocked: w.blocked, Root: w.rootID(cur), Params: fromParams(ik.GetParams(ctx)),
+		Period: ik.CurrentPeriod.Peek(ctx), Skip: ik.NumSkippedEpochs.Peek(ctx), Module: w.snap(ctx, cur).module.BigInt(), Ops: []c13Out{}}
 	for _, op := range in.Ops {
-		before := w.snap(ctx)
+		root := cur // the strategic-reserve recipient while this op runs
+		before := w.snap(ctx, root)
 		ok := true
 		panicked := Recover(func() {
 			switch op.Op {
@@ -246,13 +330,13 @@ func runC13(t *testing.T, in c13Input) c13Obs {
 					w.app.EpochsKeeper.AfterEpochEnd(ctx, id, op.E)
 				}
 			case "toggle":
-				sender := w.root
+				sender := root
 				if !op.Auth {
 					sender = w.stranger
 				}
 				ok = ik.Sudo().ToggleInflation(ctx, op.B, sender) == nil
 			case "edit":
-				sender := w.root
+				sender := root
 				if !op.Auth {
 					sender = w.stranger
 				}
@@ -281,6 +365,17 @@ func runC13(t *testing.T, in c13Input) c13Obs {
 				if err := w.app.BankKeeper.MintCoins(ctx, inflationtypes.ModuleName, Unibi(op.Amt)); err != nil {
 					t.Fatal(err)
 				}
+			case "chroot":
+				sender := root
+				if !op.Auth {
+					sender = w.stranger
+				}
+				_, err := sudoSrv.ChangeRoot(sdk.WrapSDKContext(ctx),
+					&sudotypes.MsgChangeRoot{Sender: sender.String(), NewRoot: w.rootAddr(t, op.Root).String()})
+				ok = err == nil
+				if r, err := w.app.SudoKeeper.GetRootAddr(ctx); err == nil {
+					cur = r
+				}
 			}
 		}) != ""
 		if panicked && in.Mode == "clock" && op.Op == "end" && op.Day {
@@ -291,10 +386,22 @@ func runC13(t *testing.T, in c13Input) c13Obs {
 				CurrentEpochStartTime: now, CurrentEpochStartHeight: height, EpochCountingStarted: true,
 			})
 		}
-		after := w.snap(ctx)
+		after := w.snap(ctx, root)
+		// what the sudo root received as strategic reserve: the change of its balance — net of the change already
+		// published under another heading when the root IS that very account (fee collector: staking; distribution
+		// module account: community-pool funding; inflation module account: module balance)
+		strategic := after.root.Sub(before.root)
+		switch {
+		case root.Equals(w.feeColl):
+			strategic = strategic.Sub(after.fee.Sub(before.fee))
+		case root.Equals(w.distr):
+			strategic = strategic.Sub(after.pool.Sub(before.pool))
+		case root.Equals(w.module):
+			strategic = strategic.Sub(after.module.Sub(before.module))
+		}
 		obs.Ops = append(obs.Ops, c13Out{
 			OK: ok, Panic: panicked, Minted: after.supply.Sub(before.supply).BigInt(), Staking: after.fee.Sub(before.fee).BigInt(),
-			Community: after.pool.Sub(before.pool).BigInt(), Strategic: after.root.Sub(before.root).BigInt(),
+			Community: after.pool.Sub(before.pool).BigInt(), Strategic: strategic.BigInt(),
 			Module: after.module.BigInt(), Period: ik.CurrentPeriod.Peek(ctx), Skipped: ik.NumSkippedEpochs.Peek(ctx),
 		})
 	}
@@ -358,6 +465,24 @@ func pickPoly(r *Rng, tiny bool) []string {
 			return f
 		}
 	}
+}
+
+// pickRoot: a sudo root.  operable = an account that can sign as root: an ordinary account or governance; otherwise
+// also any other module account of the application (most of them blocked recipients).
+func pickRoot(r *Rng, operable bool) string {
+	if operable {
+		return []string{"a0", "a1", "a2", "m:gov"}[r.Pick(2, 1, 1, 5)]
+	}
+	switch r.Pick(1, 1, 3, 6) {
+	case 0:
+		return "a0"
+	case 1:
+		return "a1"
+	case 2:
+		return "m:gov"
+	}
+	names := ensureWorld().modNames
+	return "m:" + names[r.Intn(len(names))]
 }
 
 func genC13Case(r *Rng) c13Input {
@@ -426,6 +551,16 @@ func genC13Case(r *Rng) c13Input {
 			in.Params.Enabled, in.Params.Started = true, false
 		}
 	}
+	// the sudo root: 0 = the genesis root throughout; 1 = operable roots (ordinary accounts, governance), handed over in
+	// mid-history; 2 = any account incl. module accounts the bank refuses as recipients (outside the precondition)
+	rootMode := r.Pick(5, 4, 2)
+	if rootMode > 0 {
+		in.Root = pickRoot(r, rootMode == 1)
+	}
+	chrootW := 0
+	if rootMode > 0 {
+		chrootW = 1
+	}
 	horizon := int(epp*(max+2)) + r.Intn(6)
 	if horizon > 70 {
 		horizon = 40 + r.Intn(30)
@@ -437,7 +572,13 @@ func genC13Case(r *Rng) c13Input {
 			in.Ops = append(in.Ops, c13Op{Op: "toggle", Auth: true, B: true})
 			kick = -1
 		}
-		switch r.Pick(14, 1, 1, 1) {
+		switch r.Pick(14, 1, 1, 1, chrootW) {
+		case 4:
+			if r.Chance(1, 6) { // a stranger tries: nothing changes, whatever the target
+				in.Ops = append(in.Ops, c13Op{Op: "chroot", Auth: false, Root: pickRoot(r, false)})
+			} else {
+				in.Ops = append(in.Ops, c13Op{Op: "chroot", Auth: true, Root: pickRoot(r, rootMode == 1)})
+			}
 		case 0:
 			in.Ops = append(in.Ops, c13Op{Op: "end", Day: true, E: e})
 			e++
@@ -537,6 +678,37 @@ func TestC13(t *testing.T) {
 	}
 	run(c13Input{Mode: "direct", Params: c13Params{Enabled: true, Started: true, Factors: c13Polys[2], Dist: c13Dists[0], EPP: 3, PPY: 12, Max: 4},
 		Period: u64(2), Skipped: u64(5), Ops: ops})
+	// the sudo root is handed to governance (MsgChangeRoot), governance switches inflation on, seven enabled days across
+	// two period boundaries, the root goes to another ordinary account, a stranger tries, back to governance
+	ops = []c13Op{{Op: "end", Day: true, E: 1}, {Op: "end", Day: true, E: 2}, {Op: "chroot", Auth: true, Root: "m:gov"},
+		{Op: "toggle", Auth: true, B: true}}
+	e := uint64(3)
+	days := func(n int) {
+		for i := 0; i < n; i++ {
+			ops = append(ops, c13Op{Op: "end", Day: true, E: e})
+			e++
+		}
+	}
+	days(7)
+	ops = append(ops, c13Op{Op: "chroot", Auth: true, Root: "a1"})
+	days(3)
+	ops = append(ops, c13Op{Op: "chroot", Auth: false, Root: "m:distribution"}, c13Op{Op: "chroot", Auth: true, Root: "m:gov"})
+	days(4)
+	run(c13Input{Mode: "direct", Params: c13Params{Factors: defaultFactors, Dist: c13Dists[0], EPP: 3, PPY: 12, Max: 96},
+		Period: u64(0), Skipped: u64(0), Ops: ops})
+	// governance is the root from the start, day ends delivered by the epochs module's BeginBlocker
+	ops, e = nil, 11
+	days(9)
+	run(c13Input{Mode: "clock", Root: "m:gov", Params: c13Params{Enabled: true, Started: true, Factors: c13Polys[2], Dist: c13Dists[1], EPP: 2, PPY: 12, Max: 3},
+		Period: u64(0), Skipped: u64(10), Ops: ops})
+	// the root is a module account the bank refuses as a recipient (MsgChangeRoot accepts any address): the strategic
+	// shares pile up in the inflation module account and the period waits, until the root is an ordinary account again
+	ops, e = nil, 1
+	days(5)
+	ops = append(ops, c13Op{Op: "chroot", Auth: true, Root: "a2"})
+	days(4)
+	run(c13Input{Mode: "direct", Root: "m:distribution", Params: c13Params{Enabled: true, Started: true, Factors: c13Polys[2], Dist: c13Dists[0], EPP: 2, PPY: 12, Max: 4},
+		Period: u64(0), Skipped: u64(0), Ops: ops})
 	rng := NewRng(cfg.Seed)
 	for i := 0; i < cfg.N; i++ {
 		run(genC13Case(rng.Fork()))
